@@ -191,7 +191,7 @@ CHECKS = {
         engine="casts", design_ref="DESIGN.md §6 C20",
         technique="Lean 4 theorems (identity of the opaque image, cast = plain cast after the C06 load, address preservation by the C04 cell-relative translation) + differential execution",
         text=("Proof: C20_opaque_rt, C20_cast_value, C20_cast_value_tvol (a sandbox-memory source is first loaded per C06: same value or abort), C20_cast_identity_in_range, C20_castf_value / C20_castf_exact / C20_castf_nearest / C20_castf_single_rounding / C20_float_to_int / C20_static_cast_class_ptr (class pointers: adjustment by exactly the base offset, null preserved) (casts that involve float, double, long double: one round-to-nearest-even of the exact value, truncation toward zero), C20_cast_addr (pointer casts keep "
-              "the designated address; a source stored in sandbox memory is translated relative to its own cell). Tied to the code by opaque round trips with memcmp of the images (integers, pointers, "
+              "the designated address; a source stored in sandbox memory is translated relative to its own cell). Enum-typed sources (`scaste`: enums over unsigned long long / unsigned int / signed char, tainted and tainted_volatile) are converted by the model as their underlying type, so the same theorems decide them. Tied to the code by opaque round trips with memcmp of the images (integers, pointers, "
               "array, struct), sandbox_static_cast over 14x14 type pairs from tainted and tainted_volatile sources, pointer casts from both kinds of source, a callback returning tainted_opaque, and the "
               "same value passed as tainted and as tainted_opaque to a sandbox function."),
         note=NOTE + "Taint of the results is a static property (decltype asserted at compile time; C01)."),
